@@ -15,7 +15,7 @@ RULE = ("Mode G: every connective formula (All Any AtLeast(k>=1) AtMost Xor XNor
         "non-trivial = distinct formula with a non-constant truth table")
 ASSUMPTIONS = [
     "AtLeast(k) is 'at least k' only for k>=1 with the default sign (value<=0 defaults to the negative sign by design); k<=0 is explored with sign given explicitly",
-    "formulas rejected by errors() (XNor/Imply over explicitly named compounds contain a node and its negation under one id) are skipped and counted",
+    "formulas rejected by errors() (XNor/Imply over explicitly named compounds contain a node and its negation under one id) are evaluated as well - the statement has no validity precondition and the unchanged library evaluates all of them correctly - and counted separately",
     "within one formula the object is reused across assignments (purity is C09's subject)",
 ]
 BOUNDS = {
@@ -23,7 +23,7 @@ BOUNDS = {
     "thorough": "quick + conn2/abcd, conn2s/abc, closure/abc, conn2/abc a3",
 }
 QUICK = ["conn1/abcd/generated/a3", "conn1/abcd/explicit/a3", "conn2/abc/generated", "conn2/abc/explicit", "conn2/abc/root",
-         "conn1s/abc/generated/a3", "closure/ab/generated", "conn3/abc/generated", "closure3/abc/generated", "cicje"]
+         "conn1s/abc/generated/a3", "closure/ab/generated", "conn3/abc/generated", "closure3/abc/generated", "sameid/ab", "cicje"]
 THOROUGH = QUICK + ["conn2/abcd/generated", "conn2s/abc/generated", "closure/abc/generated", "closure/ab/root", "conn2/abc/generated/a3"]
 
 
@@ -191,8 +191,7 @@ def check_formula(f, acc, fam, k, only_way=None):
             acc.violation(None, case, {"what": "construction / errors() raised", "exc": repr(e), "formula": show(f)})
             continue
         if errs:
-            acc.n("skipped_invalid_" + way)
-            continue
+            acc.n("invalid_but_evaluated_" + way)
         if not counted:
             acc.n("formulas")
             acc.state(f)
